@@ -1379,7 +1379,7 @@ def lang_check(run, pid, make_cases, rule_text, assumptions, nontrivial, focus_c
                          "disagreement": LCODES[code]},
                    "%s: %s — rule text: %s%s" % (pid, LCODES[code], c["text"].replace("\n", " | ")[:400], exp))
     report_reader(run, pid, mism, lambda i: byid[i]["text"])
-    if pid in ("C02", "C09", "C11", "C15", "C18", "C20") and ok:
+    if pid in ("C02", "C03", "C09", "C11", "C15", "C18", "C20") and ok:
         interp_facts_report(run, pid, bool(run.violations))
     extra_cov = {}
     if extra:
